@@ -106,6 +106,7 @@ func ScopeMiddleware(provider godi.Provider, opts ...Option) gin.HandlerFunc {
 		scope, err := provider.CreateScope(c.Request.Context())
 		if err != nil {
 			cfg.ErrorHandler(c, err)
+			c.Abort() // without a scope the remaining handlers must not run
 			return
 		}
 
@@ -122,6 +123,7 @@ func ScopeMiddleware(provider godi.Provider, opts ...Option) gin.HandlerFunc {
 		for _, mw := range cfg.Middlewares {
 			if err := mw(scope, c); err != nil {
 				cfg.ErrorHandler(c, err)
+				c.Abort() // the scope is closed on return: the remaining handlers must not run
 				return
 			}
 		}
